@@ -1,20 +1,106 @@
 import Capella.Props.C01
-import Capella.Model.XmlEdit
+import Capella.Lemmas.XmlEdit
 
 /-!
 # C02 — a saved model reloads to exactly what was in memory
 
 Property theorems only.  The writer and the reader are those of C01 (`Model/Xml.lean`,
-`Model/XmlParse.lean`); the tree edits of the object layer are `Model/XmlEdit.lean`.
+`Model/XmlParse.lean`), repaired where a counter-example of this property showed (text `]]>`,
+white-space-only text).  The tree edits of the object layer are `Model/XmlEdit.lean`; what the
+descriptors of the object layer do to the tree is observed at every `save()` of the random API
+histories in `harness/props/c02.py`, not modelled here.
 -/
 namespace Capella.Props.C02
 open Capella.Xml
 
 /-- **`save_reload`**: whatever `ModelFile.write_xml` writes for a Capella-shaped in-memory
-document — semantic (80 columns), visual or metadata fragment — reads back as that document, in
-file order. -/
+document — semantic (80 columns), visual or metadata fragment — reads back as that document in
+file order … -/
 theorem save_reload (k : FragKind) (d : Doc) (hwf : wfDoc d = true) :
     parse (writeXml k d) = some (canonDoc d) :=
   Capella.Props.C01.parse_writeXml k d hwf
+
+/-- … and the file order carries exactly the information that was in memory: same elements in the
+same order, same tag, text and tail, the same attributes and namespace declarations (as sets). -/
+theorem reload_info_equal (k : FragKind) (d : Doc) (hwf : wfDoc d = true) :
+    ∃ d', parse (writeXml k d) = some d' ∧ InfoEqDoc d' d :=
+  ⟨canonDoc d, save_reload k d hwf, canonDoc_infoEq d hwf⟩
+
+/-- No accepted tree edit leads out of the Capella-shaped documents: setting an attribute with a
+declared name to **any** XML-legal string, deleting an attribute, setting the text of a childless
+element to any non-empty XML-legal string (white space included), inserting a well-formed child
+below an element without text, removing a child. -/
+theorem edit_keeps_shape (ed : Edit) (d : Doc) (hwf : wfDoc d = true) (hok : ed.ok d = true) :
+    wfDoc (ed.apply d) = true :=
+  edit_preserves_wf ed d hwf hok
+
+/-- **`history_save_reload`**: after any finite history of accepted edits, saving and reloading
+yields a document that is information-equal to the one in memory — for every fragment kind. -/
+theorem history_save_reload (k : FragKind) (es : List Edit) (d : Doc) (hwf : wfDoc d = true)
+    (hok : okAll es d = true) :
+    ∃ d', parse (writeXml k (applyAll es d)) = some d' ∧ InfoEqDoc d' (applyAll es d) :=
+  reload_info_equal k _ (history_preserves_wf es d hwf hok)
+
+/-- Several save–edit–save rounds: `save()` does not replace the in-memory trees, so every save
+point sees a prefix of the history — and each of them reloads to what was in memory then. -/
+theorem every_save_point (k : FragKind) (es₁ es₂ : List Edit) (d : Doc) (hwf : wfDoc d = true)
+    (hok : okAll (es₁ ++ es₂) d = true) :
+    (∃ d', parse (writeXml k (applyAll es₁ d)) = some d' ∧ InfoEqDoc d' (applyAll es₁ d)) ∧
+    (∃ d', parse (writeXml k (applyAll (es₁ ++ es₂) d)) = some d' ∧
+      InfoEqDoc d' (applyAll (es₁ ++ es₂) d)) := by
+  rw [okAll_append, Bool.and_eq_true] at hok
+  refine ⟨history_save_reload k es₁ d hwf hok.1, ?_⟩
+  exact history_save_reload k (es₁ ++ es₂) d hwf (by rw [okAll_append, hok.1, hok.2]; rfl)
+
+/-- Attribute values are unconstrained: every XML-legal string survives `set` + save + reload
+(instance of the above spelled out for one attribute on the root). -/
+theorem any_legal_string_survives (k : FragKind) (d : Doc) (hwf : wfDoc d = true) (name v : Str)
+    (hok : (Edit.setAttr [] name v).ok d = true) :
+    ∃ d', parse (writeXml k ((Edit.setAttr [] name v).apply d)) = some d' ∧
+      InfoEqDoc d' ((Edit.setAttr [] name v).apply d) :=
+  history_save_reload k [Edit.setAttr [] name v] d hwf (by simp [okAll, hok])
+
+/-! ## The boundary (what an edit must not do, with witnesses) -/
+
+/-- Setting the text to the empty string leaves the domain: it reloads as "no text" (the same XML
+information, a different lxml value). -/
+theorem empty_text_not_shaped :
+    let d : Doc := ⟨[], .mk "bodies".toList [] [] none none [], []⟩
+    wfDoc d = true ∧ (Edit.setText [] (some [])).ok d = false ∧
+      (parse (writeXml .semantic ((Edit.setText [] (some [])).apply d))).map (·.root.text) = some none := by
+  decide
+
+/-- Text on an element that has children (mixed content) is refused by `Edit.ok`; the writer would
+drop the children's tails. -/
+theorem mixed_content_refused :
+    let d : Doc := ⟨[], .mk "a".toList [] [] none none [.mk "b".toList [] [] none none []], []⟩
+    wfDoc d = true ∧ (Edit.setText [] (some "t".toList)).ok d = false := by
+  decide
+
+/-! ## Non-vacuity -/
+
+def base : Doc :=
+  ⟨[⟨"Capella_Version_6.0.0".toList, none⟩],
+   .mk (clark "http://c/m".toList "Project".toList)
+     [("xmi".toList, XMI), ("xsi".toList, XSI), ("m".toList, "http://c/m".toList)]
+     [(clark XMI "version".toList, "2.0".toList), ("id".toList, "r".toList)] none none
+     [.mk "ownedX".toList [] [("id".toList, "x".toList)] none none
+        [.mk "bodies".toList [] [] (some "b".toList) none []]],
+   []⟩
+
+/-- a history: rename with every kind of awkward character, white-space-only body, a new child
+with an `xsi:type`, delete an attribute, remove a child -/
+def hist : List Edit :=
+  [.setAttr [0] "name".toList "a<b>&\"'\t\n\r]]> \u0085 ".toList,
+   .setText [0, 0] (some " \n ".toList),
+   .insertKid [] 1 (.mk "ownedY".toList [] [(clark XSI "type".toList, "m:T".toList), ("id".toList, "y".toList)] none none []),
+   .delAttr [] "id".toList,
+   .removeKid [0] 0]
+
+example : wfDoc base = true := by decide
+example : okAll hist base = true := by decide
+example : Doc.beq (applyAll hist base) base = false := by decide
+example : ∃ d', parse (writeXml .semantic (applyAll hist base)) = some d' ∧ InfoEqDoc d' (applyAll hist base) :=
+  history_save_reload .semantic hist base (by decide) (by decide)
 
 end Capella.Props.C02
